@@ -205,7 +205,7 @@ class Ctx:
             print(f"[{self.prop}] note: listed known finding no longer reported: {k.get('id', '')} {k['key']}")
         rc = 0
         if new:
-            rdir = os.path.join(VERIF_DIR, "evidence", "replay")
+            rdir = os.path.join(os.environ.get("JV_EVIDENCE_DIR") or os.path.join(VERIF_DIR, "evidence"), "replay")
             os.makedirs(rdir, exist_ok=True)
             for i, f in enumerate(new):
                 rp = os.path.join(rdir, f"{self.prop}-{i}.json")
